@@ -166,15 +166,16 @@ def evaluate__name_related_functions(self: XPathFunction, context: ta.ContextTyp
     elif context is None:
         raise self.missing_context()
 
+    empty = AnyURI('') if self.symbol == 'namespace-uri' and self.parser.version != '1.0' else ''
     arg = self.get_argument(context, default_to_context=True)
     if arg is None:
-        return ''
+        return empty
     elif not isinstance(arg, XPathNode):
         raise self.error('XPTY0004')
 
     name = arg.name
     if name is None:
-        return ''
+        return empty
 
     symbol = self.symbol
     if symbol == 'name':
@@ -455,6 +456,8 @@ def evaluate__sum(self: XPathFunction, context: ta.ContextType = None) -> ta.One
 
     if not values:
         zero = 0 if len(self) == 1 else self.get_argument(context, index=1)
+        if isinstance(zero, XPathNode):
+            zero = self.data_value(zero)
         return [] if zero is None else zero
 
     if all(isinstance(x, (decimal.Decimal, int)) for x in values):
@@ -496,6 +499,8 @@ def evaluate__ceiling_and_floor_functions(self: XPathFunction, context: ta.Conte
         return math.nan if self.parser.version == '1.0' else []
     elif isinstance(arg, XPathNode) or self.parser.compatibility_mode:
         arg = self.number_value(arg)
+    elif isinstance(arg, bool):
+        raise self.error('XPTY0004', "an xs:boolean value is not an xs:numeric value")
     elif isinstance(arg, UntypedAtomic):
         try:
             arg = float(arg)
@@ -534,6 +539,8 @@ def evaluate__round(self: XPathFunction, context: ta.ContextType = None) -> ta.O
         return math.nan if self.parser.version == '1.0' else []
     elif isinstance(arg, XPathNode) or self.parser.compatibility_mode:
         arg = self.number_value(arg)
+    elif isinstance(arg, bool):
+        raise self.error('XPTY0004', "an xs:boolean value is not an xs:numeric value")
 
     if isinstance(arg, float) and (math.isnan(arg) or math.isinf(arg)):
         return arg
